@@ -194,6 +194,21 @@ def judge(prop, case, rec, out):
         deps = sorted([rec['dhtmlx'][p]['id'], rec['dhtmlx'][u]['id']] for u in rec['members'] for p in rec['dhtmlx'][u]['preds'])
         mon['oneLinkPerDependency'] = sorted([l[1], l[2]] for l in rec['obsLinks']) == deps
         mon['progressInRange'] = all(0 <= Fraction(e[6]) <= 1 for e in rec['obsData'])
+        # "grouped under its section": when the chart has more than one section (tasks without one form the section '-'), every task line
+        # follows the header of its own section.  Headers are indented by two blanks, task lines by four, and a task line ends with its id
+        # and dates - a single-line name cannot imitate either.
+        want = {e['id']: (e['section'] if e['section'] is not None else '-') for e in rec['gantt']}
+        if len(set(want.values())) >= 2:
+            cur, ok = None, True
+            for line in rec['obsGantt'].split('\n'):
+                h = re.match(r'^  section (.*)$', line)
+                if h:
+                    cur = h.group(1)
+                    continue
+                t = re.search(r'id_(-?\d+), \d\d\.\d\d\.\d{4} \d\d:\d\d, \d\d\.\d\d\.\d{4} \d\d:\d\d$', line)
+                if t and line.startswith('    ') and t.group(1) in want:
+                    ok = ok and cur == want[t.group(1)]
+            mon['groupedUnderSection'] = ok
     hyp = {}
     sig = None
     # (until the repair of KF-R1 a failing network clause on a name with braces was a known finding; the clause is now claimed for
